@@ -12,7 +12,8 @@ UTF = "18 226 130 172 1 196 0 0 2 240 0 0 22 24 27 25"
 class Prop(PropBase):
     ID = "C09"
     LEAN_MODULES = ["Tpp.Props.C09"]
-    REQUIRED = ["Tpp.Props.C09." + n for n in ("C09_erase", "C09_erase_after", "C09_tracking", "C09_bytes", "erased_is_blank")] + \
+    REQUIRED = ["Tpp.Props.C09." + n for n in ("C09_erase", "C09_erase_after", "C09_tracking", "C09_bytes", "erased_is_blank",
+                                                "C09_erase_any_size", "C09_erase_after_any_size")] + \
                ["Tpp.feed_eraseOp", "Tpp.agree_erase"]
     RULE = ("exhaustive: each of the six erase manipulators after each of {nothing at all, default text, coloured blinking "
             "text, UTF-8 coloured text, another erase, a mode switch} at every cursor of a 4x3 grid, followed by coloured "
